@@ -462,8 +462,9 @@ func (e *Exec) evalIndex(x *ast.IndexExpr, st *State, ctx *Ctx, commaOk bool) (s
 	if sortOf(t) == "String" {
 		s := e.eval(x.X, st, ctx)
 		i := e.eval(x.Index, st, ctx)
-		e.nopanic(st, x.Pos(), "index", "(and (<= 0 "+i+") (< "+i+" (str.len "+s+")))", exprString(x))
-		return "(str.to_code (str.at " + s + " " + i + "))", ""
+		// s[i] is the i-th BYTE (strByte: the code point where the text up to i is ASCII)
+		e.nopanic(st, x.Pos(), "index", "(and (<= 0 "+i+") (< "+i+" (byteLen "+s+")))", exprString(x))
+		return "(strByte " + s + " " + i + ")", ""
 	}
 	if sl, ok := t.Underlying().(*types.Slice); ok {
 		l := e.eval(x.X, st, ctx)
@@ -503,13 +504,14 @@ func (e *Exec) evalSlice(x *ast.SliceExpr, st *State, ctx *Ctx) string {
 	case isRefList(t):
 		ln, take, drop = "(rllen "+v+")", "rltake", "rldrop"
 	case sortOf(t) == "String":
-		ln = "(str.len " + v + ")"
+		// s[lo:hi] cuts at BYTE offsets (byteSub: the substring where the text up to hi is ASCII)
+		ln = "(byteLen " + v + ")"
 		h := hi
 		if h == "" {
 			h = ln
 		}
 		e.nopanic(st, x.Pos(), "slice", "(and (<= 0 "+lo+") (<= "+lo+" "+h+") (<= "+h+" "+ln+"))", exprString(x))
-		return "(str.substr " + v + " " + lo + " (- " + h + " " + lo + "))"
+		return "(byteSub " + v + " " + lo + " " + h + ")"
 	default:
 		e.unsupported(x.Pos(), "slice of %s", t)
 	}
